@@ -517,8 +517,12 @@ func (g *Gen) property(sc *scope, depth int, inOneof bool) *Property {
 		switch k := g.R.Intn(100); {
 		case k < 20:
 			p.Required = true
-		case k < 32 && container == "":
+		case k < 32:
+			// optional arrays / maps too (fix d536c9b: not proto3_optional, plain repeated)
 			p.Optional = true
+			if container != "" {
+				g.Stats["optional_"+container]++
+			}
 		}
 	}
 	return p
